@@ -11,6 +11,7 @@ package main
 import (
 	"crypto/sha256"
 	"fmt"
+	"runtime"
 	"sync/atomic"
 
 	"github.com/Tnze/go-mc/yggdrasil/user"
@@ -234,5 +235,71 @@ func sigNeighbourFamily(maxLen int) int64 {
 	var total int64
 	engine.ParallelFor(maxLen+1, func(_, n int) { atomic.AddInt64(&total, judgeSigNeighbours(n)) })
 	rep.Extra("sig_side_neighbour_menu", fmt.Sprintf("every key-blob length 0..%d x %v", maxLen, sigNeighbourKinds))
+	return total
+}
+
+// Split histories: whatever VerifySignature keeps between calls (a pooled hash, an encoder that buffers a partial line)
+// must not let the text of one call run on into the next. For a genuine pair (K, S) and every split point s, one
+// goroutine on one processor calls VerifySignature(K[:s], junk) and then VerifySignature(K[s:], S): the second key blob
+// is not what the services key signed, so it must be refused - also when "rest of the first call + second call" happens
+// to spell the signed text. The same with the two halves swapped and with the first call given S as well.
+func judgeSplits(n int) int64 {
+	k := blobOfLen(n)
+	var calls int64
+	// S is made by the harness (holder of the trusted key) over K in every framing of the menu, without asking the
+	// library whether it accepts (K, S): a library that carries state between calls may refuse genuine pairs too, and
+	// the family must not depend on that
+	for fi, fr := range framings {
+		sig := signatureOver(k, fr[0], fr[1])
+		junk := make([]byte, len(sig))
+		for s := 1; s < n; s++ {
+			calls += judgeSplit(k, sig, junk, n, s, fi)
+		}
+	}
+	return calls
+}
+
+func judgeSplit(k, sig, junk []byte, n, s, fi int) int64 {
+	var calls int64
+	{
+		for variant := 0; variant < 3; variant++ {
+			first, second, firstSig := k[:s], k[s:], junk
+			switch variant {
+			case 1:
+				firstSig = sig
+			case 2:
+				first, second = k[s:], k[:s]
+			}
+			c := Case{Part: "sig-split", Entry: "VerifySignature", Content: fmt.Sprintf("split=%d,variant=%d,framing=%d", s, variant, fi), SigLen: n}
+			var accepted bool
+			pk, frame, pan := engine.Guard(func() {
+				user.VerifySignature(append([]byte(nil), first...), append([]byte(nil), firstSig...))
+				accepted = user.VerifySignature(append([]byte(nil), second...), append([]byte(nil), sig...))
+			})
+			calls += 2
+			rep.Eval(1)
+			if pan {
+				fail("sig/VerifySignature/panic/"+frame+"/"+pk+"/split-history", n, c, "panic %s", pk)
+				continue
+			}
+			if accepted {
+				fail(fmt.Sprintf("sig/VerifySignature/forgery-accepted/part-of-the-signed-key-after-a-call-with-the-other-part/variant-%d", variant), n, c,
+					"key blob of %d bytes with genuine signature S: after VerifySignature on %d bytes of it, VerifySignature(the other %d bytes, S) returned true", n, len(first), len(second))
+			}
+		}
+	}
+	return calls
+}
+
+func splitFamily() int64 {
+	prev := runtime.GOMAXPROCS(1)
+	runtime.LockOSThread()
+	defer func() { runtime.UnlockOSThread(); runtime.GOMAXPROCS(prev) }()
+	var total int64
+	lens := []int{2, 9, 56, 57, 58, 114, 115, 171, 294}
+	for _, n := range lens {
+		total += judgeSplits(n)
+	}
+	rep.Extra("sig_split_history_menu", fmt.Sprintf("key-blob lengths %v x every split point x {junk first, S first, halves swapped}, one goroutine on one processor", lens))
 	return total
 }
